@@ -88,6 +88,10 @@ pub enum TimeSpec {
     NextExpiry(i64),
     /// relative to the final deadline of the k-th outstanding request
     Deadline(usize, i64),
+    /// (receive steps only) an instant `d` µs BEFORE the send instant of the k-th outstanding request:
+    /// a receive timestamp taken from a coarser or cached clock. The trace clock returns to where it
+    /// was afterwards.
+    BeforeSend(usize, u64),
 }
 
 #[derive(Debug, Clone)]
@@ -336,6 +340,14 @@ impl Driver {
                 }
                 None => self.now_us + delta.unsigned_abs(),
             },
+            TimeSpec::BeforeSend(k, d) => {
+                if self.sent.is_empty() {
+                    self.now_us
+                } else {
+                    let id = self.sent[k % self.sent.len()];
+                    self.t0.get(&id).copied().unwrap_or(self.now_us).saturating_sub(*d)
+                }
+            }
             TimeSpec::Deadline(k, delta) => {
                 let b = self.boundaries();
                 let n = self.sent.len();
@@ -625,6 +637,7 @@ impl Driver {
                 self.record("timeout", json!({}), res, -1);
             }
             Step::Recv { at, msg } => {
+                let resume = self.now_us;
                 self.now_us = self.resolve_time(at, false);
                 let now = self.instant();
                 let (bytes, meta) = self.build_inbound(msg);
@@ -644,6 +657,7 @@ impl Driver {
                 };
                 let idn = d["id"].as_i64().unwrap_or(-1);
                 self.record("recv", json!({"d":d,"h":h,"meta":meta}), res, idn);
+                self.now_us = self.now_us.max(resume);
             }
         }
     }
